@@ -212,9 +212,14 @@ def parts_of(value):
     if v[0] == 'call' and v[1] == 'read_lines':
         return [('rec', v)]
     if v[0] in ('list', 'tuple'):
-        if any(x[0] == 'star' for x in v[1]):
-            return [('opaque', v)]
-        return [('one', x) for x in v[1]]
+        out = []
+        for x in v[1]:
+            out += parts_of(x[1]) if x[0] == 'star' else [('one', x)]
+        return out
+    if v[0] == 'bin' and v[1] == '+':
+        return parts_of(v[2]) + parts_of(v[3])
+    if v[0] == 'call' and v[1] in ('list', 'tuple') and len(v[2]) == 1 and not v[3]:
+        return parts_of(v[2][0])
     return [('opaque', v)]
 
 
